@@ -22,11 +22,18 @@ From BB Require Import BN Brute SpaceFacts TrapFacts PercolateFacts AttractorFac
   Strict PetriNet Control Meta FilterFacts PetriNetFacts TrappistFacts DiagramStruct DiagramSem1 DiagramCache
   DiagramDepth DiagramComplete Termination ControlFacts MetaFacts Candidates StrictFacts MinExpandFacts CandidatesFacts SymbolicTest SymbolicTestFacts Signed ReductionFacts ControlFacts2 Main Blocks BlocksFacts ObsFacts OwnerFacts CandidatesTerm
   PartialOwner BlockMath BlockComplete ASeeds ASeedsFacts LogChecks SkipRule SkipRuleFacts Names NamesFacts Perm PermFacts SCC SCCFacts SCCStruct ControlFacts3 SCCTerm FilterSym Main2 StrategyFacts ControlFacts4 SkipRuleFacts2 SCCComplete SCCAttr BlockComplete2 ControlFacts5 Iso SkipSem ControlFacts6.
-From BB Require Import Candidates Control PyLib PyLibSd PyLibPerc PySrcRetained PySrcRetainedFacts.
+From BB Require Import Candidates Control PyLib PyLibSd PyLibPerc PySrcRetained PySrcRetainedFacts PySrcGreedyFacts.
 
 (* translator tie: the function GENERATED from the current text of attractor_candidates.make_heuristic_retained_set (PySrcRetained.v: the child space with the fewest NFVS variables, its values on the NFVS, the majority value of the update function for the rest) is the model's Candidates.heuristic_retained for every network, node space, NFVS list and avoid list *)
 Theorem C08_source_make_heuristic_retained_set : forall (N : net) (S : space) (nfvs : list nat) (avoid : list space), py_make_heuristic_retained_set N S nfvs avoid = Some (heuristic_retained N S nfvs avoid).
 Proof. exact py_make_heuristic_retained_set_spec. Qed.
+
+(* translator tie for asp_greedy_retained_set_optimization (generated in PySrcRetained.v; compute_fixed_point_reduced_STG = the next entry of the solver tape, the call logged): it runs the model's greedy_loop -- same solver calls in the same order, same retained set and candidates; the text needs one more unit of fuel (its `while not done` test after the last pass) *)
+Theorem C08_source_greedy_optimization_of_model : forall (fuel : nat) (st : pst) (R : retained) (cands : list state) (avoid : list space) (st' : pst) (res : retained * list state), greedy_loop fuel st (length avoid =? 0) R cands = (st', Some res) -> py_asp_greedy_retained_set_optimization (S fuel) st R cands avoid = Some (st', Some res).
+Proof. exact py_greedy_of_model. Qed.
+
+Theorem C08_source_greedy_optimization_to_model : forall (fuel : nat) (st : pst) (R : retained) (cands : list state) (avoid : list space) (st' : pst) (res : retained * list state), py_asp_greedy_retained_set_optimization fuel st R cands avoid = Some (st', Some res) -> greedy_loop fuel st (length avoid =? 0) R cands = (st', Some res).
+Proof. exact py_greedy_to_model. Qed.
 
 (* the end-to-end statement *)
 Theorem C08_pipeline_covers_given_nfvs : forall (fuel : nat) (N : net) (S : space) (avoid : list space) (nfvs : list nat) (Rinit : retained) (cfg : ccfg) (greedy simulation : bool) (tape : list (list state)) (stp : simtape) (res : list state) (log : list call), trap_space N S -> (forall a : space, In a avoid -> trap_space N a) -> NoDup nfvs -> (forall v : nat, In v nfvs -> v < nvars N) -> retained_total nfvs Rinit -> no_neg_walk N S nfvs -> (is_full S = false -> nfvs = [] -> avoid <> [] -> fixed_points_avoided N S avoid) -> compute_candidates fuel N S avoid nfvs Rinit cfg greedy simulation tape stp = (COk res, log) -> tape_ok N S avoid log tape -> walks_ok fuel N S avoid nfvs Rinit cfg greedy tape stp -> (forall c : state, In c res -> in_space c S = true) /\ covers N S avoid res.
@@ -93,6 +100,8 @@ Theorem C08_empty_list_means_no_attractor : forall (N : net) (P : state -> Prop)
 Proof. exact closed_contains_attractor. Qed.
 
 Print Assumptions C08_source_make_heuristic_retained_set.
+Print Assumptions C08_source_greedy_optimization_of_model.
+Print Assumptions C08_source_greedy_optimization_to_model.
 Print Assumptions C08_pipeline_covers_given_nfvs.
 Print Assumptions C08_nfvs_reduction.
 Print Assumptions C08_no_neg_walk_test_exact.
